@@ -664,6 +664,49 @@ func checkConvertHelper(p *Program, r *Report, name, target string) {
 		ck := condsOfKey(sites[k].Conds)
 		siteOf[ck] = append(siteOf[ck], &sites[k])
 	}
+	// the generic path: NewT(img.Bounds()); draw.Draw(out, out.Rect, img, out.Rect.Min, draw.Src)
+	fallbackForm := func(o Outcome) (bool, string) {
+		var newEv, drawEv, boundsEv *Event
+		extra := 0
+		for k := range o.St.events {
+			ev := &o.St.events[k]
+			switch {
+			case ev.Kind == "call" && strings.HasPrefix(ev.Fn, "image.New"):
+				newEv = ev
+			case ev.Kind == "call" && ev.Fn == "image/draw.Draw":
+				drawEv = ev
+			case ev.Kind == "invoke" && ev.Fn == "Bounds":
+				boundsEv = ev
+			case ev.Kind == "store":
+				extra++
+			case ev.Kind == "call" && ev.Callee != nil && pureObserver(ev.Callee, 0):
+				// a module function that only looks at its arguments (a validator) changes nothing
+			case ev.Kind == "call" || ev.Kind == "invoke":
+				// what is done with the images counts; reading the environment (GOMAXPROCS …) does not
+				for _, v := range append([]Val{ev.Recv}, ev.Args...) {
+					if v != nil && (strings.Contains(valKey(v), "img") || strings.Contains(valKey(v), "newimg#")) {
+						extra++
+						break
+					}
+				}
+			}
+		}
+		good := newEv != nil && drawEv != nil && boundsEv != nil && extra == 0 && valKey(boundsEv.Recv) == "img" && valKey(newEv.Args[0]) == valKey(boundsEv.Res)
+		why := "fallback is not NewT(img.Bounds()) + draw.Draw"
+		if good {
+			a := drawEv.Args
+			rect := valKey(newEv.Args[0])
+			minPt, _ := elem(newEv.Args[0], 0)
+			good = len(a) == 5 && valKey(a[0]) == valKey(newEv.Res) && valKey(a[1]) == rect && valKey(a[2]) == "img" && valKey(a[3]) == valKey(minPt) && strings.Contains(valKey(a[4]), "1") && isDrawSrc(a[4])
+			if !good {
+				why = "draw.Draw arguments are " + trunc(valKey(Tuple(a)), 300) + "; required (out, out.Rect, img, out.Rect.Min, draw.Src) with out.Rect = img.Bounds()"
+			}
+			if good && valKey(o.Ret) != valKey(newEv.Res) {
+				good, why = false, "the fallback does not return the image it drew into"
+			}
+		}
+		return good, why
+	}
 	sawIdentity, sawFallback := false, false
 	for _, o := range outs {
 		if o.Kind != "return" {
@@ -694,50 +737,17 @@ func checkConvertHelper(p *Program, r *Report, name, target string) {
 			r.Check(op != nil && op.Key == "img" && n == 0, "C15.identity", name+" identity arm", p.Pos(o.Pos), "an input already of type "+target+" is returned as the same instance, untouched", "the "+target+" arm returns "+trunc(valKey(o.Ret), 80)+fmt.Sprintf(" after %d calls/stores; required the input itself", n))
 			sawIdentity = true
 		case arm == "":
-			// fallback: NewT(img.Bounds()); draw.Draw(out, out.Rect, img, out.Rect.Min, draw.Src)
-			var newEv, drawEv, boundsEv *Event
-			extra := 0
-			for k := range o.St.events {
-				ev := &o.St.events[k]
-				switch {
-				case ev.Kind == "call" && strings.HasPrefix(ev.Fn, "image.New"):
-					newEv = ev
-				case ev.Kind == "call" && ev.Fn == "image/draw.Draw":
-					drawEv = ev
-				case ev.Kind == "invoke" && ev.Fn == "Bounds":
-					boundsEv = ev
-				case ev.Kind == "store":
-					extra++
-				case ev.Kind == "call" || ev.Kind == "invoke":
-					// what is done with the images counts; reading the environment (GOMAXPROCS …) does not
-					for _, v := range append([]Val{ev.Recv}, ev.Args...) {
-						if v != nil && (strings.Contains(valKey(v), "img") || strings.Contains(valKey(v), "newimg#")) {
-							extra++
-							break
-						}
-					}
-				}
-			}
-			good := newEv != nil && drawEv != nil && boundsEv != nil && extra == 0 && valKey(boundsEv.Recv) == "img" && valKey(newEv.Args[0]) == valKey(boundsEv.Res)
-			why := "fallback is not NewT(img.Bounds()) + draw.Draw"
-			if good {
-				a := drawEv.Args
-				rect := valKey(newEv.Args[0])
-				minPt, _ := elem(newEv.Args[0], 0)
-				good = len(a) == 5 && valKey(a[0]) == valKey(newEv.Res) && valKey(a[1]) == rect && valKey(a[2]) == "img" && valKey(a[3]) == valKey(minPt) && strings.Contains(valKey(a[4]), "1") && isDrawSrc(a[4])
-				if !good {
-					why = "draw.Draw arguments are " + trunc(valKey(Tuple(a)), 300) + "; required (out, out.Rect, img, out.Rect.Min, draw.Src) with out.Rect = img.Bounds()"
-				}
-				if good && valKey(o.Ret) != valKey(newEv.Res) {
-					good, why = false, "the fallback does not return the image it drew into"
-				}
-			}
+			good, why := fallbackForm(o)
 			r.Check(good, "C15.bounds", name+" fallback", p.Pos(o.Pos), "out = New(img.Bounds()); draw.Draw(out, out.Rect, img, out.Rect.Min, draw.Src); return out", why)
 			sawFallback = true
 		default:
 			wss := siteOf[ck]
 			key := name + " " + arm
 			if len(wss) == 0 {
+				if good, _ := fallbackForm(o); good {
+					r.Hold("C15.bounds", key+" generic path", p.Pos(o.Pos), "this path of the arm leaves the image to the generic path: out = New(img.Bounds()); draw.Draw(out, out.Rect, img, out.Rect.Min, draw.Src) — the conversion the property is stated against")
+					continue
+				}
 				r.Violate("C15.partition", key, p.Pos(o.Pos), "arm converts without a worker closure and is not the draw.Draw fallback")
 				continue
 			}
@@ -1154,4 +1164,62 @@ func imagePtrType(p *Program, name string) types.Type {
 		return nil
 	}
 	return types.NewPointer(obj.Type())
+}
+
+// pureObserver: a module function that writes nothing but its own locals and calls
+// only functions of the same kind, read-only geometry methods of the image package
+// and error constructors: calling it on an image changes nothing.
+func pureObserver(f *ssa.Function, depth int) bool {
+	if f == nil || depth > 4 {
+		return false
+	}
+	if !isPrismFn(f) || len(f.Blocks) == 0 {
+		if f.Pkg == nil {
+			return false
+		}
+		switch f.Pkg.Pkg.Path() {
+		case "image":
+			switch f.Name() {
+			case "YOffset", "COffset", "PixOffset", "Empty", "Dx", "Dy", "Bounds", "In", "Size", "Eq", "Overlaps", "Intersect", "Canon":
+				return true
+			}
+		case "fmt":
+			return f.Name() == "Errorf" || f.Name() == "Sprintf"
+		case "errors":
+			return f.Name() == "New"
+		}
+		return false
+	}
+	for _, b := range f.Blocks {
+		for _, in := range b.Instrs {
+			switch x := in.(type) {
+			case *ssa.Store:
+				base := x.Addr
+				for {
+					switch y := base.(type) {
+					case *ssa.FieldAddr:
+						base = y.X
+						continue
+					case *ssa.IndexAddr:
+						base = y.X
+						continue
+					}
+					break
+				}
+				if _, ok := base.(*ssa.Alloc); !ok {
+					return false
+				}
+			case *ssa.MapUpdate, *ssa.Go, *ssa.Defer, *ssa.Send:
+				return false
+			case *ssa.Call:
+				if _, isB := x.Call.Value.(*ssa.Builtin); isB {
+					continue
+				}
+				if x.Call.IsInvoke() || !pureObserver(staticCallee(x), depth+1) {
+					return false
+				}
+			}
+		}
+	}
+	return true
 }
